@@ -121,9 +121,9 @@ def plan(tier: str) -> list[dict]:
     if tier == "quick":
         return ([{"max_n": 5, "lp": False, "examples": 800, "cost": 2} for _ in range(3)] + [{"max_n": 6, "lp": False, "examples": 200, "cost": 2}]
                 + [{"max_n": 4, "lp": True, "examples": 150, "cost": 2}, {"max_n": 5, "lp": True, "examples": 80, "cost": 2}])
-    return ([{"max_n": 6, "lp": False, "examples": 1500, "cost": 5} for _ in range(8)]
-            + [{"max_n": 7, "lp": False, "examples": 150, "cost": 6} for _ in range(2)]
-            + [{"max_n": 5, "lp": True, "examples": 200, "cost": 6} for _ in range(6)])
+    return ([{"max_n": 6, "lp": False, "examples": 20000, "cost": 8} for _ in range(7)]
+            + [{"max_n": 7, "lp": False, "examples": 1500, "cost": 8} for _ in range(3)]
+            + [{"max_n": 5, "lp": True, "examples": 2500, "cost": 8} for _ in range(6)])
 
 
 def run_shard(spec: dict, ctx: Ctx) -> None:
